@@ -436,6 +436,44 @@ def o_pair_encaps(prog, res):
     return n
 
 
+def index_guard(prog, res):
+    """set_dimension writes data[index] only after index < size was tested."""
+    f = prog.func("storage_properties_set_dimension")
+    res.touched(f)
+    out = param(f, 0)
+    uses = []
+    for b, i, s in f.all_stmts():
+        for x in ir.walk(s):
+            if x.get("k") == "idx" and is_param_path(x["b"], out["id"]) == "acquisition_dimensions.data":
+                uses.append((b.id, i, s, x["i"]))
+    if not uses:
+        raise AnalysisBroken("storage_properties_set_dimension no longer indexes the dimension array")
+    for bid, i, s, ix in uses:
+        ixr = ir.render(ir.strip(ix))
+
+        def bound(cn, lab, blk, ixr=ixr):
+            c0 = ir.strip(cn)
+            neg = False
+            while isinstance(c0, dict) and c0.get("k") == "un" and c0.get("op") == "!":
+                neg = not neg
+                c0 = ir.strip(c0["e"])
+            if isinstance(c0, dict) and c0.get("k") == "bin" and c0["op"] == "<" and ir.render(ir.strip(c0["l"])) == ixr and \
+                    is_param_path(c0["r"], out["id"]) == "acquisition_dimensions.size":
+                return lab == ("false" if neg else "true")
+            if isinstance(c0, dict) and c0.get("k") == "bin" and c0["op"] == ">" and ir.render(ir.strip(c0["r"])) == ixr and \
+                    is_param_path(c0["l"], out["id"]) == "acquisition_dimensions.size":
+                return lab == ("false" if neg else "true")
+            return False
+        dom, _ = paths.edge_dominated(f, (bid, i), bound)
+        inst = "set_dimension: data[%s] guarded by %s < size" % (ixr, ixr)
+        if dom:
+            res.oblige("GUARD-DOM", inst, True, "", f.loc(s))
+        else:
+            res.fail("GUARD-DOM", inst, "GUARD-DOM|set_dimension|index", f.loc(s),
+                     "storage_properties_set_dimension indexes the dimension array with %s without having tested %s < size (strictly): an index equal to the size writes past the array" % (ixr, ixr))
+        break
+
+
 def run(ctx, res):
     prog = ctx.program()
     res.extra["explanation"] = EXPLANATION
@@ -455,6 +493,7 @@ def run(ctx, res):
     if n < 3:
         raise AnalysisBroken("expected three free() sites in the destroy functions, found %d" % n)
     copy_string_rules(prog, res)
+    index_guard(prog, res)
     if o_pair_encaps(prog, res) < 1:
         raise AnalysisBroken("no store to acquisition_dimensions.size/data found")
     res.require_min("O-SHALLOW", 5)
